@@ -27,7 +27,7 @@ ASSUMPTIONS = ["phaseless propagators: per-step factor in {0} U [1e-3, 100] and 
                "(their lower clip 1e-8 is applied before the final population-control factor, so only non-negativity is demanded below 1e-8)",
                "phaseless propagators: a walker that received a non-finite field must die in that step while every other weight stays finite; "
                "CPMC propagators only use the field through erf(), so non-finite values merely force a branch"]
-REQUIRED_COUNTERS = {"steps_observed": 2000, "injections": 10, "reconfigurations": 20, "sampler_blocks": 10, "deaths_observed": 5}
+REQUIRED_COUNTERS = {"steps_observed": 2000, "injections": 10, "reconfigurations": 20, "sampler_blocks": 10, "deaths_observed": 5, "entry_point_calls": 8}
 PHASELESS = ("restricted", "unrestricted")
 CPMC = ("cpmc", "cpmc_slow", "cpmc_nn", "cpmc_nn_slow", "cpmc_continuous")
 
@@ -85,6 +85,10 @@ def gen_cases(tier, seed):
         for rep in range(2 if q else 8):
             cases.append({"type": "sampler", "wt": wt, "dt": float(rng.choice([0.005, 0.05])), "strength": 1.0, "predead": True,
                           "s": int(rng.integers(1 << 30)), "group": "sd-%s-%d" % (wt, rep), "cost": 15})
+        for rep in range(1 if q else 4):
+            cases.append({"type": "entry", "wt": wt, "dt": float(rng.choice([0.005, 0.05])), "strength": 1.0, "n_ene": int(rng.choice([3, 4])),
+                          "n_sr": int(rng.choice([1, 2])), "dead": 0.75, "s": int(rng.integers(1 << 30)),
+                          "group": "se-%s-%d" % (wt, rep), "cost": 60})
     return cases
 
 
@@ -340,5 +344,44 @@ def run_sampler(case):
             "counters": {"sampler_blocks": nblocks}}
 
 
+def run_entry(case):
+    """every AD entry point of the sampler on a population that starts with dead walkers (more energy blocks than reconfiguration
+    blocks): weights finite and >= 0, reported killed fraction in [0,1], and - on the entry points without reconfiguration - the
+    walkers that started dead are still dead"""
+    import jax.numpy as jnp
+
+    from ad_afqmc import sampling
+
+    rng = np.random.default_rng(case["s"])
+    nw = 8
+    wt = case["wt"]
+    ne = (2, 2) if wt == "rhf" else (2, 1)
+    S = afqmc.make_system("rhf" if wt == "rhf" else "uhf", 4, ne, rng, walker_type=wt, dt=case["dt"], n_walkers=nw, nchol=3,
+                          chol_scale=0.5 * case["strength"], orthonormal=True)
+    smp = sampling.sampler(n_prop_steps=2, n_ene_blocks=case["n_ene"], n_sr_blocks=case["n_sr"], n_blocks=1)
+    w0 = np.ones(nw)
+    dead0 = rng.choice(nw, size=int(case["dead"] * nw), replace=False)
+    w0[dead0] = 0.0
+    obs = jnp.zeros_like(jnp.asarray(S["ham_data"]["h1"]))
+    events = []
+    n_calls = 0
+    for name, has_sr in (("propagate_phaseless_ad", True), ("propagate_phaseless_ad_nosr", False), ("propagate_phaseless_ad_norot", True),
+                         ("propagate_phaseless_ad_nosr_norot", False)):
+        pd = dict(S["prop_data"])
+        pd["weights"] = jnp.array(w0)
+        e, pd = getattr(smp, name)(S["ham"], dict(S["ham_data"]), 0.0, obs, S["prop"], pd, S["trial"], dict(S["wave_data"]))
+        n_calls += 1
+        w = np.asarray(pd["weights"])
+        nk = float(pd["n_killed_walkers"])
+        key = "C09/entry/%s/%s" % (wt, name.replace("propagate_phaseless_", ""))
+        events.append(ev("entry/weights-finite-nonnegative", bool(np.all(np.isfinite(w)) and np.all(w >= 0) and not np.iscomplexobj(w)), key=key + "/weights"))
+        events.append(ev("entry/killed-fraction-in-unit-interval", bool(math.isfinite(nk) and 0.0 <= nk <= 1.0), key=key + "/killed-fraction", value=nk,
+                         n_ene_blocks=case["n_ene"], n_sr_blocks=case["n_sr"], dead_at_start=float(len(dead0)) / nw))
+        if not has_sr:
+            events.append(ev("entry/dead-stay-dead-without-reconfiguration", bool(np.all(w[dead0] == 0.0)), key=key + "/dead-stay-dead"))
+    return {"events": events, "nontrivial": True, "sample": {"wt": wt, "n_ene": case["n_ene"], "n_sr": case["n_sr"], "dead_at_start": len(dead0), "last_killed_fraction": nk},
+            "counters": {"entry_point_calls": n_calls}}
+
+
 def run_case(case):
-    return run_history(case) if case["type"] == "history" else run_sampler(case)
+    return {"history": run_history, "sampler": run_sampler, "entry": run_entry}[case["type"]](case)
